@@ -26,10 +26,13 @@ def rand_membership(rng, fleets, p_public=0.5):
 
 def gen_world(rng, profile=None):
     profile = profile or {}
-    delta = profile.get('delta') or rng.choice(DELTAS)
+    delta = profile.get('delta') or rng.choice(profile.get('deltas') or DELTAS)
     t0 = rng.choice([0, 3600 * 7, 86400 - 120, 86400 * 2 + 5]) + rng.randint(0, 600)
     n_clusters = rng.randint(2, 4)
-    geoids = make_geoids(rng, n_clusters, rng.randint(1, 3))
+    per_cluster = rng.randint(1, 3)
+    if profile.get('clusters'):
+        n_clusters, per_cluster = profile['clusters']
+    geoids = make_geoids(rng, n_clusters, per_cluster)
     fleets = rng.choice([[], [], ['fa'], ['fa', 'fb']]) if 'fleets' not in profile else profile['fleets']
     cancel = rng.choice([60, 300, 600])
     cfg = base_config()
@@ -52,9 +55,10 @@ def gen_world(rng, profile=None):
     stations, bases, vehicles = [], [], []
     n_st = profile.get('stations', rng.randint(0, 3))
     for k in range(n_st):
-        ctypes = rng.sample(CHARGER_IDS, rng.randint(1, 3))
-        chargers = {c: rng.randint(1, profile.get('max_plugs', 2)) for c in ctypes}
-        st = ml.mock_station_from_geoid(f's{k}', rng.choice(geoids), chargers=chargers, membership=rand_membership(rng, fleets), env=env)
+        ctypes = rng.sample(CHARGER_IDS, rng.randint(1, 3)) if not profile.get('charger_types') else list(profile['charger_types'])
+        chargers = {c: rng.randint(profile.get('min_plugs', 1), profile.get('max_plugs', 2)) for c in ctypes}
+        st = ml.mock_station_from_geoid(f's{k}', geoids[0] if profile.get('colocate') else rng.choice(geoids), chargers=chargers,
+                                        membership=rand_membership(rng, fleets, 0.8 if profile.get('colocate') else 0.5), env=env)
         stations.append(st)
     n_b = profile.get('bases', rng.randint(0, 2))
     for k in range(n_b):
@@ -71,14 +75,14 @@ def gen_world(rng, profile=None):
                                              membership=rand_membership(rng, fleets)))
     n_v = profile.get('vehicles', rng.randint(1, 4))
     for k in range(n_v):
-        mech = mechs[rng.choice(['bev', 'bev', 'ice'])]
+        mech = mechs[rng.choice(['bev', 'bev', 'ice'] if not profile.get('bev_only') else ['bev'])]
         soc = rng.choice([0.001, 0.02, 0.5, 0.97, 1.0, round(rng.uniform(0.01, 1.0), 3)])
         vid = f'v{k}'
         driver = None
         if bases and rng.random() < 0.3:
             attr = HumanDriverAttributes(vid, 's1', rng.choice(bases).id, False)
             driver = HumanAvailable(attr) if rng.random() < 0.5 else HumanUnavailable(attr)
-        v = ml.mock_vehicle_from_geoid(vid, rng.choice(geoids), mechatronics=mech, soc=soc, driver_state=driver,
+        v = ml.mock_vehicle_from_geoid(vid, (rng.choice(geoids[1:]) if profile.get('near') and len(geoids) > 1 else geoids[0]) if (profile.get('colocate') and rng.random() < 0.7) else rng.choice(geoids), mechatronics=mech, soc=soc, driver_state=driver,
                                        membership=rand_membership(rng, fleets))
         vehicles.append(v)
     sim = ml.mock_sim(sim_time=t0, sim_timestep_duration_seconds=delta, vehicles=tuple(vehicles), stations=tuple(stations), bases=tuple(bases))
@@ -89,6 +93,7 @@ def gen_world(rng, profile=None):
     w.rate_structure = ml.mock_rate_structure()
     w.next_req = 0
     w.fleets = fleets
+    w.instr_weights = profile.get('instr_weights')
     for g in geoids:
         w.it.g(g)
     return w
@@ -98,8 +103,27 @@ def gen_instruction(rng, w, v, valid_p=0.7, uniform=False):
     sim = w.sim
     kinds = ['idle', 'dtrip', 'dstation', 'cstation', 'cbase', 'dbase', 'repos', 'rbase', 'oos']
     weights = [1, 3, 3, 3, 2, 2, 1, 2, 0.3] if not uniform else [1] * 9
+    if getattr(w, 'instr_weights', None) and not uniform:
+        weights = w.instr_weights
     kind = rng.choices(kinds, weights)[0]
     valid = rng.random() < valid_p
+    # "do again what you are doing": the instruction that re-enters the vehicle's current activity with the same target
+    st0 = v.vehicle_state
+    if rng.random() < 0.12:
+        if isinstance(st0, ChargingStation):
+            return I.ChargeStationInstruction(v.id, st0.station_id, st0.charger_id)
+        if isinstance(st0, ChargeQueueing):
+            return rng.choice([I.ChargeStationInstruction, I.DispatchStationInstruction])(v.id, st0.station_id, st0.charger_id)
+        if isinstance(st0, ChargingBase):
+            return I.ChargeBaseInstruction(v.id, st0.base_id, st0.charger_id)
+        if isinstance(st0, ReserveBase):
+            return I.ReserveBaseInstruction(v.id, st0.base_id)
+        if isinstance(st0, DispatchTrip):
+            return I.DispatchTripInstruction(v.id, st0.request_id)
+        if isinstance(st0, DispatchStation):
+            return I.DispatchStationInstruction(v.id, st0.station_id, st0.charger_id)
+        if isinstance(st0, DispatchBase):
+            return I.DispatchBaseInstruction(v.id, st0.base_id)
     stations = sorted(sim.stations.values(), key=lambda s: s.id)
     bases = sorted(sim.bases.values(), key=lambda s: s.id)
     reqs = sorted(sim.requests.values(), key=lambda s: s.id)
